@@ -503,6 +503,90 @@ impl<'a> VisitMut for HofPass<'a> {
                 }
             }
         }
+        // R-HOF (dashmap): M.entry(K).and_modify(|x| B).or_insert(V)
+        if let Expr::MethodCall(oi) = e {
+            if oi.method == "or_insert" && oi.args.len() == 1 {
+                if let Expr::MethodCall(am) = &*oi.receiver {
+                    if am.method == "and_modify" && am.args.len() == 1 {
+                        if let (Expr::MethodCall(en), Expr::Closure(cl)) = (&*am.receiver, &am.args[0]) {
+                            if en.method == "entry" && en.args.len() == 1 && cl.inputs.len() == 1 {
+                                let m = &en.receiver;
+                                let k = &en.args[0];
+                                if !matches!(k, Expr::Path(_) | Expr::Field(_)) {
+                                    die("unsupported construct: R-HOF entry() key is not a place expression");
+                                }
+                                let v = &oi.args[0];
+                                let x = &cl.inputs[0];
+                                let body = &cl.body;
+                                let new: Expr = parse_quote! {
+                                    match (#m.hof_get(#k)) {
+                                        Some(__fjx_c) => { let mut __fjx_x = __fjx_c; { let #x = &mut __fjx_x; #body }; #m.hof_set(#k, __fjx_x); }
+                                        None => { #m.hof_insert(#k, #v); }
+                                    }
+                                };
+                                *e = new;
+                                self.log.push("R-HOF entry(k).and_modify(f).or_insert(v) unfolded by its definition".into());
+                            }
+                        }
+                    }
+                }
+            }
+        }
+        // R-HOF (dashmap): M.alter(&K, |_, v| E)
+        if let Expr::MethodCall(al) = e {
+            if al.method == "alter" && al.args.len() == 2 {
+                if let (Expr::Reference(kr), Expr::Closure(cl)) = (&al.args[0], &al.args[1]) {
+                    if cl.inputs.len() == 2 {
+                        let m = &al.receiver;
+                        let k = &kr.expr;
+                        if !matches!(**k, Expr::Path(_) | Expr::Field(_)) {
+                            die("unsupported construct: R-HOF alter() key is not a place expression");
+                        }
+                        let vpat = &cl.inputs[1];
+                        let body = &cl.body;
+                        let new: Expr = parse_quote! {
+                            match (#m.hof_get(#k)) {
+                                Some(#vpat) => { #m.hof_set(#k, #body); }
+                                None => {}
+                            }
+                        };
+                        *e = new;
+                        self.log.push("R-HOF alter(&k, |_, v| e) unfolded by its definition".into());
+                    }
+                }
+            }
+        }
+        // R-RETAIN (dashmap): M.retain(|&k, v| B): every entry visited exactly once, in an unspecified order
+        if let Expr::MethodCall(rt) = e {
+            if rt.method == "retain" && rt.args.len() == 1 {
+                if let Expr::Closure(cl) = &rt.args[0] {
+                    if cl.inputs.len() == 2 {
+                        let m = &rt.receiver;
+                        let kpat = match &cl.inputs[0] {
+                            syn::Pat::Reference(r) => (*r.pat).clone(),
+                            _ => die("unsupported construct: R-RETAIN expects `|&k, v|`"),
+                        };
+                        let vpat = &cl.inputs[1];
+                        let body = &cl.body;
+                        let new: Expr = parse_quote! {
+                            {
+                                let __fjx_keys = #m.hof_keys();
+                                let mut __fjx_i: usize = 0;
+                                while __fjx_i < __fjx_keys.len() {
+                                    let #kpat = __fjx_keys[__fjx_i];
+                                    let mut __fjx_v = #m.hof_get_present(#kpat);
+                                    let __fjx_keep = { let #vpat = &mut __fjx_v; #body };
+                                    #m.hof_retain_set(#kpat, __fjx_v, __fjx_keep);
+                                    __fjx_i += 1;
+                                }
+                            }
+                        };
+                        *e = new;
+                        self.log.push("R-RETAIN retain(|&k, v| b) unfolded: one visit per entry, unspecified order".into());
+                    }
+                }
+            }
+        }
         // R-TRY: the language-defined desugaring of `?` (Verus knows nothing about the converted error otherwise)
         if let Expr::Try(t) = e {
             if self.closure_depth > 0 {
@@ -839,7 +923,7 @@ impl<'a> VisitMut for ProofMarker<'a> {
             let st = tok(&s);
             let mut before = vec![];
             let mut after = vec![];
-            if !st.starts_with("__fjx_") {
+            if !(st.starts_with("__fjx_loop!") || st.starts_with("__fjx_proof!") || st.starts_with("__fjx_contract!")) {
                 for (needle, is_after, idx) in self.needles {
                     // innermost statement containing the needle: no nested marker for this idx yet
                     if st.contains(needle.as_str()) && !st.contains(&format!("__fjx_proof!({idx})")) {
